@@ -13,9 +13,9 @@ from .. import cjit, corpus, ir_checks, kernels, lean, numeric, pipeline
 _GD = {"quadrilateral": 2, "hexahedron": 3}
 
 
-def tp_space(cell, deg, shape=None):
+def tp_space(cell, deg, shape=None, variant="gll_warped"):
     ct = getattr(basix.CellType, cell)
-    el = basix.ufl.wrap_element(basix.create_tp_element(basix.ElementFamily.P, ct, deg, basix.LagrangeVariant.gll_warped))
+    el = basix.ufl.wrap_element(basix.create_tp_element(basix.ElementFamily.P, ct, deg, getattr(basix.LagrangeVariant, variant)))
     if shape is not None:
         el = basix.ufl.blocked_element(el, shape=shape)
     cel = basix.ufl.blocked_element(
@@ -45,6 +45,15 @@ def tp_entries():
             v = TestFunction(V)
             f = Coefficient(V)
             return [f * f * v * dx]
+        def variants(cell=cell, deg=deg):
+            # two tensor-product elements of equal degree but different Lagrange variants in one kernel
+            m, V = tp_space(cell, deg)
+            W = FunctionSpace(m, tp_space(cell, deg, variant="equispaced")[1].ufl_element())
+            u, v = TrialFunction(V), TestFunction(V)
+            f = Coefficient(W)
+            return [f * inner(u, v) * dx, f * v * dx]
+        if deg == 3:
+            out.append(corpus.Entry(f"tp_variants_{cell}_{deg}", variants, tags=("tp",)))
         out.append(corpus.Entry(f"tp_laplace_{cell}_{deg}", lap, tags=("tp",)))
         out.append(corpus.Entry(f"tp_coef_{cell}_{deg}", coef, tags=("tp",)))
         out.append(corpus.Entry(f"tp_rhs_{cell}_{deg}", rhs, tags=("tp",)))
@@ -121,6 +130,52 @@ def _pair(e, optA, optB, seed, diag=False):
     return out
 
 
+def shared_cache(chk):
+    """Option pairs requested through ONE JIT cache directory, in both orders: what comes back for the second
+    request must still be the kernel of ITS options (rank / tensor), not the cached module of the first."""
+    dg = {e.name: e for e in diag_entries()}
+    tp = {e.name: e for e in tp_entries()}
+    plans = [(dg["diag_p2"], {}, {"part": "diagonal"}), (tp["tp_coef_quadrilateral_2"], {}, {"sum_factorization": True}),
+             (dg["diag_p2"], {}, {"scalar_type": "float32"}), (dg["diag_p2"], {"table_rtol": 1e-1, "table_atol": 1e-1}, {})]
+
+    def work(i):
+        e, oa, ob = plans[i // 2]
+        order = [oa, ob] if i % 2 == 0 else [ob, oa]
+        out = {"name": e.name, "order": order, "bad": []}
+        with pipeline.TmpCache() as cd:
+            for o in order:
+                objs = e.build()
+                full = pipeline.default_options(**o)
+                st = str(o.get("scalar_type", "float64"))
+                cases, _, _ = kernels.cases_for_forms(e.name, objs, full)
+                comp, mod, _ = pipeline.jit_forms(objs, cd, o)
+                oras = numeric.oracles_for(e, objs, diagonal=o.get("part") == "diagonal")
+                want_rank = 1 if o.get("part") == "diagonal" else len(objs[0].arguments())
+                if comp[0].rank != want_rank:
+                    out["bad"].append({"options": o, "what": f"form descriptor rank {comp[0].rank}, expected {want_rank}"})
+                    continue
+                rng = np.random.default_rng(5)
+                for c in cases:
+                    inp = numeric.make_data(c, rng, st)
+                    A = numeric.call_c(mod, kernels.compiled_kernel(comp, c), c, inp, st)
+                    B = numeric.oracle_value(oras, c, inp, st)
+                    rel = float(np.abs(A - B).max() / max(1.0, float(np.abs(B).max())))
+                    tol = 1e-10 if st == "float64" and "table_rtol" not in o else (2e-4 if "table_rtol" not in o else 10.0)
+                    if not rel <= tol:
+                        out["bad"].append({"options": o, "what": f"kernel differs from the oracle (rel {rel})", "kernel": c.name})
+        return out
+    res = cjit.parallel_map(work, list(range(2 * len(plans))))
+    for i, (st, r) in sorted(res.items()):
+        if st != "ok":
+            chk.disagree("shared-cache option sequence failed", {"plan": i, "detail": str(r)[:300]})
+            continue
+        chk.case("shared_cache_sequence", f"{r['name']}:{r['order']}")
+        for b in r["bad"]:
+            chk.violation(f"c10:shared-cache:{r['name']}:{sorted(b['options'])}",
+                          f"after requesting {r['order'][0]} the same cache directory answers {b['options']} wrongly: {b['what']}",
+                          {"entry": r["name"], "sequence": r["order"], **b})
+
+
 def run(chk):
     chk.rule = ("sum_factorization on/off on tensor-product elements (quadrilateral deg 1-3, hexahedron deg 1-2; with coefficients, x-dependent "
                 "weights, inexact quadrature) compared with each other (1e-11) and with the oracle; part='diagonal' vs the diagonal of the full "
@@ -138,7 +193,8 @@ def run(chk):
     tp = tp_entries()
     if chk.tier == "quick":
         tp = [e for e in tp if e.name in ("tp_laplace_quadrilateral_2", "tp_coef_quadrilateral_2", "tp_rhs_quadrilateral_3",
-                                         "tp_coef_hexahedron_1", "tp_laplace_hexahedron_2", "tp_rhs_hexahedron_2", "tp_coef_quadrilateral_1")]
+                                         "tp_coef_hexahedron_1", "tp_laplace_hexahedron_2", "tp_rhs_hexahedron_2", "tp_coef_quadrilateral_1",
+                                         "tp_variants_quadrilateral_3")]
     dg = diag_entries()
     tol_ents = [e for e in corpus.fixed() if e.name in ("laplace_coef_tri_p2", "stokes_mixed", "ext_facet_tet", "nonaffine_quad", "n1curl_tet")]
     tols = [{"table_rtol": 1e-4, "table_atol": 1e-6}, {"table_rtol": 0.0, "table_atol": 0.0}, {"table_rtol": 1e-12, "table_atol": 1e-14}]
@@ -180,6 +236,8 @@ def run(chk):
             bound = 64 * (max(t["table_rtol"], 1e-6) + max(t["table_atol"], 1e-9)) + 1e-13
             if not r["maxrel"] <= bound:
                 chk.violation(f"c10:tolerance:{r['name']}", f"changing table tolerances to {t} changes the tensor by rel {r['maxrel']} > {bound}", {**r, "tolerances": t})
+    shared_cache(chk)
+
     # options that do not apply have no effect on the generated text
     def code(objs, **kw):
         """generated C without comment lines (the file header echoes the option values)"""
